@@ -680,7 +680,7 @@ pub fn run(ctx: &Ctx) -> Report {
                 rep.require("tls_cuts_err_expected_and_seen", 50);
                 rep.require("tls_cuts_callback_bound_checked", 50);
             }
-        } else {
+        } else if cfg!(feature = "tls") {
             rep.inconclusive.push("cannot generate TLS material".into());
         }
     }
